@@ -69,7 +69,7 @@ type RS struct {
 }
 
 // NumHidden is the number of hidden perturbations per module (0 = none).
-var NumHidden = []int{17, 2, 9, 10, 3, 4}
+var NumHidden = []int{19, 2, 9, 10, 3, 4}
 
 // ID encodes the rule's content class (module, resource, variant) and its table index. Rule
 // managers reuse the controller (and the rule object) of an earlier load for a rule that is
@@ -198,6 +198,10 @@ func BuildFlow(r RS) *flow.Rule {
 			if r.Var == 1 {
 				x.Threshold = 1e-9
 			}
+		case 17, 18:
+			// statistic intervals of weeks (the field is a uint32 of milliseconds; whatever the manager derives from it
+			// must not wrap): the rule counts per 2^31 ms / 3e9 ms
+			x.StatIntervalInMs = []uint32{1 << 31, 3000000000}[r.Hid-17]
 		case 14, 15:
 			// rules on an associated resource nobody enters (count 0: threshold 0 still blocks, 1e9 never does)
 			x.RelationStrategy, x.RefResource = flow.AssociatedResource, "ref-a"
